@@ -275,6 +275,19 @@ def scannerScanT (p : Nat) (s : Scanner) (tys : List GoTy) (vals : List GoVal) :
      | .unmodelled => .unmodelled)
   | .crash => .crash
 
+
+/-- Iter.MapScan(m) where `m` is a NEW map on every call that holds, under every RowData column name, a pointer to
+    the SAME typed variable (the documented use: `row := map[string]interface{}{"age": &age, …}` inside the loop,
+    helpers.go 418-433): every destination of `rowData.Values` is replaced by the caller's pointer, then `iter.Scan`.
+    `unmodelled`: the names do not cover the destinations one to one (a column without a Go type, duplicate names). -/
+def mapScanT (p : Nat) (it : Iter) (tys : List GoTy) (vals : List GoVal) : TScanOut :=
+  if it.failed then .stop it vals
+  else
+    match Rows.rowDataNames it.md.columns with
+    | none => .crash
+    | some names =>
+      if names.length == tys.length && decide names.Nodup then scanT p it tys vals else .unmodelled
+
 /-! ## what the destinations hold before the first row -/
 
 mutual
